@@ -463,4 +463,106 @@ def r18_8(ctx):
     return out
 
 
-RULES = [r18_1, r18_2, r18_3, r18_4, r18_5, r18_6, r18_7, r18_8]
+class _MP(StandIn):
+    """mutable numeric point: supports the in-place operators, so that aliasing of sample points is observable"""
+
+    def __init__(self, x, y):
+        self.x, self.y = x, y
+
+    def __getitem__(self, i):
+        return (self.x, self.y)[i]
+
+    def __iter__(self):
+        return iter((self.x, self.y))
+
+    def __sub__(self, o):
+        return _MP(self.x - o[0], self.y - o[1])
+
+    def __add__(self, o):
+        return _MP(self.x + o[0], self.y + o[1])
+
+    def __isub__(self, o):
+        self.x, self.y = self.x - o[0], self.y - o[1]
+        return self
+
+    def __iadd__(self, o):
+        self.x, self.y = self.x + o[0], self.y + o[1]
+        return self
+
+    def __neg__(self):
+        return _MP(-self.x, -self.y)
+
+    def inner(self, o):
+        return self.x * o[0] + self.y * o[1]
+
+    def cross(self, o):
+        return self.x * o[1] - self.y * o[0]
+
+    def __copy__(self):
+        return _MP(self.x, self.y)
+
+    def __repr__(self):
+        return f"({self.x}, {self.y})"
+
+
+def r18_9(ctx):
+    """abstract run (W) of IntegratePlanar.winding_number *through* winding_number_linear on a quadratic stand-in whose
+    sample points are mutable objects and with Point2D(p) being p itself: the result must be the sum of the angles the
+    consecutive chords subtend at the centre, computed here from the untouched coordinates"""
+    import math
+    out = Outcome("R18.9", "winding_number of a curved segment about a point off the origin = sum of the subtended chord "
+                           "angles / tau (sample points shared by consecutive chords are not disturbed by the evaluation)",
+                  floor=2)
+    fn = ctx.fn("curve.IntegratePlanar.winding_number")
+    P = [(0.0, 0.0), (1.0, 0.0), (1.0, 1.0)]
+
+    def bez(t):
+        t = float(t)
+        return tuple((1 - t) ** 2 * a + 2 * t * (1 - t) * b + t * t * c for a, b, c in zip(*P))
+
+    class Cv(StandIn):
+        npts, degree = 3, 2
+
+        def eval(self, nodes):
+            try:
+                return tuple(_MP(*bez(n)) for n in nodes)
+            except TypeError:
+                return _MP(*bez(nodes))
+
+        __call__ = eval
+
+    def hook(rn, ev, call, name, recv, args, kwargs):
+        if name == "isinstance":
+            return True
+        if name == "Point2D":
+            if len(args) == 1 and isinstance(args[0], _MP):
+                return args[0]                  # Point2D(p) is p
+            return _MP(*(args[0] if len(args) == 1 else args))
+        return NotImplemented
+    ext = {"np.arctan2": math.atan2, "math.atan2": math.atan2, "np.float64": float}
+    for centre, nn in (((3.0, -2.0), None), ((0.25, 0.5), 5), ((-1.0, 4.0), 4)):
+        n = nn or 3
+        pts = [bez(k / (n - 1)) for k in range(n)]
+        want = 0.0
+        for a, b in zip(pts[:-1], pts[1:]):
+            d = (math.atan2(b[1] - centre[1], b[0] - centre[0]) - math.atan2(a[1] - centre[1], a[0] - centre[0])) / math.tau
+            d = d - 1 if d > 0.5 else d + 1 if d < -0.5 else d
+            want += d
+        C = _MP(*centre)
+        try:
+            got = Runner(ctx, set(), hook, asserts=True, ext=ext).call_fn(fn, [Cv(), C, nn])
+        except (Undecided, Raised) as ex:
+            out.undecided(fn.qname, f"centre {centre}: {ex}", where=fn.where())
+            continue
+        if (C.x, C.y) != centre:
+            out.bad(fn.qname, "the query point is modified by the evaluation", where=fn.where(), detail=f"{centre} -> {C}")
+        elif abs(float(got) - want) > 1e-9:
+            out.bad(fn.qname, "the winding contribution is not the sum of the angles subtended by the chords", where=fn.where(),
+                    detail=f"quadratic (0,0),(1,0),(1,1) about {centre} with {n} samples: returns {float(got):.6f}, the chords "
+                           f"subtend {want:.6f} turns")
+        else:
+            out.ok(fn.qname, f"about {centre}, {n} samples: {want:.6f} turns", where=fn.where())
+    return out
+
+
+RULES = [r18_1, r18_2, r18_3, r18_4, r18_5, r18_6, r18_7, r18_8, r18_9]
